@@ -26,6 +26,10 @@ type UtilEv struct {
 	ResSet   Paths   `json:"resSet"`
 	B        bool    `json:"b"`
 	Rect     [4]int64 `json:"rect"`
+	ResSet2  Paths   `json:"resSet2"` // the reference computation of an equivalence (see the spec)
+	Idx      [][2]int64 `json:"idx"`  // OffsetCallbackConst: (curr, prev) indices the callback received, in call order
+	Tree     []TNode `json:"tree"`
+	Counts   []int64 `json:"counts"` // PolyTreeAccessors: Count() of every node in depth-first order, root first
 	ArgsSame bool    `json:"argsSame"`
 	Nontriv  bool    `json:"nontriv"`
 }
@@ -73,12 +77,78 @@ func execUtil(e *UtilEv) {
 		case "Path64ToPathD":
 			d := clipper.Path64ToPathD(to64(e.Path))
 			e.Res = from64(clipper.PathDToPath64(d))
+		case "OffsetCallbackConst": // polygon offsetting of Set by n1/4, join type n2, through a constant delta callback
+			d := float64(e.N1) / 4
+			a := clipper.NewClipperOffset(2, 0.25, false, false)
+			a.AddPaths(toPaths64(e.Set), clipper.JoinType(e.N2), clipper.Polygon)
+			var sa clipper.Paths64
+			a.Execute64(d, &sa)
+			b := clipper.NewClipperOffset(2, 0.25, false, false)
+			b.AddPaths(toPaths64(e.Set), clipper.JoinType(e.N2), clipper.Polygon)
+			var cb clipper.DeltaCallbackFunc = func(path *clipper.Path64, norms *clipper.PathD, curr, prev uint8) float64 {
+				e.Idx = append(e.Idx, [2]int64{int64(curr), int64(prev)})
+				return d
+			}
+			b.SetDeltaCallback(&cb)
+			var sb clipper.Paths64
+			b.Execute64(d, &sb)
+			e.ResSet, e.ResSet2 = fromPaths64(sb), fromPaths64(sa)
+		case "EngineDScaleFunc": // Set[0] subject, Set[1] clip (tenths), clip type n1, fill rule n2, precision 1
+			sd, cd := clipper.PathsD{}, clipper.PathsD{}
+			for _, q := range e.Set[0:1] {
+				pd := clipper.PathD{}
+				for _, v := range q {
+					pd = append(pd, clipper.PointD{X: float64(v[0]) / 10, Y: float64(v[1]) / 10})
+				}
+				sd = append(sd, pd)
+			}
+			for _, q := range e.Set[1:] {
+				pd := clipper.PathD{}
+				for _, v := range q {
+					pd = append(pd, clipper.PointD{X: float64(v[0]) / 10, Y: float64(v[1]) / 10})
+				}
+				cd = append(cd, pd)
+			}
+			g1 := clipper.NewClipperD(1)
+			g1.AddPaths(sd, clipper.Subject, false)
+			g1.AddPaths(cd, clipper.Clip, false)
+			var s1, o1 clipper.PathsD
+			g1.ExecuteOC(clipper.ClipType(e.N1), clipper.FillRule(e.N2), &s1, &o1)
+			g2 := clipper.NewClipperD(1)
+			g2.AddPathsWithScaleFunc(sd, clipper.Subject, false, clipper.ScalePathsDToPaths64)
+			g2.AddPathsWithScaleFunc(cd, clipper.Clip, false, clipper.ScalePathsDToPaths64)
+			var s2, o2 clipper.PathsD
+			g2.ExecuteWithScaleFunc(clipper.ClipType(e.N1), clipper.FillRule(e.N2), &s2, &o2, clipper.ScalePath64ToPathD)
+			e.ResSet, e.ResSet2 = fromPathsDScaled(s2, 10), fromPathsDScaled(s1, 10)
+		case "PolyTreeAccessors": // Set[0] subject, Set[1:] clip, clip type n1, fill rule n2
+			t := clipper.BooleanOpPolyTree64(clipper.ClipType(e.N1), toPaths64(e.Set[0:1]), toPaths64(e.Set[1:]), clipper.FillRule(e.N2))
+			e.Tree = flattenT(t.PolyPathBase)
+			e.Counts = []int64{int64(t.Count())}
+			var walk func(n *clipper.PolyPathBase)
+			walk = func(n *clipper.PolyPathBase) {
+				for _, ch := range n.GetChildren() {
+					e.Counts = append(e.Counts, int64(ch.Count()))
+					walk(ch)
+				}
+			}
+			walk(t.PolyPathBase)
+			t.Clear()
+			e.B = t.Count() == 0 && len(t.GetChildren()) == 0
 		}
 	})
 	if e.Res == nil {
 		e.Res = Path{}
 	}
-	e.ResSet = nz(e.ResSet)
+	if e.Idx == nil {
+		e.Idx = [][2]int64{}
+	}
+	if e.Tree == nil {
+		e.Tree = []TNode{}
+	}
+	if e.Counts == nil {
+		e.Counts = []int64{}
+	}
+	e.ResSet, e.ResSet2 = nz(e.ResSet), nz(e.ResSet2)
 	e.ArgsSame = equalPaths(Paths{p0}, Paths{e.Path}) && equalPaths(s0, e.Set)
 	e.Nontriv = len(e.Path) > 1 || len(e.Set) > 0 || len(e.Vals) > 0
 }
@@ -118,6 +188,16 @@ func driveUtil(r *rand.Rand, w *writer, n int) {
 		case "Ellipse64":
 			e.Path = Path{{int64(r.Intn(201) - 100), int64(r.Intn(201) - 100)}}
 			e.N1, e.N2, e.N3 = int64(r.Intn(60)-3), int64(r.Intn(60)-3), int64(r.Intn(40)-2)
+		case "OffsetCallbackConst":
+			e.Set = genClosedSet(r, 3)
+			if len(e.Set) > 2 {
+				e.Set = e.Set[:2]
+			}
+			e.N1, e.N2 = int64(2+r.Intn(40))*int64(1-2*r.Intn(2)), int64(r.Intn(3))
+		case "EngineDScaleFunc", "PolyTreeAccessors":
+			a, b := genClosedSet(r, r.Intn(3)), genClosedSet(r, r.Intn(3))
+			e.Set = append(Paths{a[0]}, b...)
+			e.N1, e.N2 = int64(1+r.Intn(4)), int64(r.Intn(4))
 		default:
 			e.Path = generalPath(r, -10, 10, 4)
 		}
